@@ -1,6 +1,7 @@
 import HclModel.Expr.Eval
 import HclModel.Expr.Rel
 import HclModel.Expr.Taint
+import HclModel.Expr.Gamma
 import HclModel.Sexp
 /-!
 Wire format of values, types, expressions and scopes (s-expressions; strings in hex), and the fixed
@@ -213,15 +214,54 @@ def evalLine (exprS envS : Sexp) : String :=
   | none, _ => "- unsupported-input expr"
   | _, none => "- unsupported-input env"
 
-/-- `NI <expr> <env1> <env2>`: executable instance of the noninterference statement (model self-test) -/
+mutual
+/-- the fragment on which noninterference holds without a side condition (the same definition as
+    `Proofs.plain`, repeated here because the driver does not link the proof modules) -/
+def niPlain : Expr → Bool
+  | .lit _ => true
+  | .var _ => true
+  | .getAttr e _ => niPlain e
+  | .bin _ l r => niPlain l && niPlain r
+  | .tuple es => niPlainList es
+  | .template parts => niPlainList parts
+  | _ => false
+def niPlainList : List Expr → Bool
+  | [] => true
+  | e :: es => niPlain e && niPlainList es
+end
+
+/-- `NI <expr> <env1> <env2>`: executable instance of the noninterference theorem that has no two-run side
+    condition (`noninterference_plain`): a model self-test.  Outside that fragment the full statement is false
+    (`Props/C06.lean`: witnesses K_*, T_*), so nothing is claimed: `n/a`. -/
 def niLine (exprS env1S env2S : Sexp) : String :=
   match exprOfSexp exprS, envOfSexp env1S, envOfSexp env2S with
   | some e, some ρ, some σ =>
     let (v₁, d₁) := eval (strictCx stdFuncs) ρ e
     let (v₂, d₂) := eval (strictCx stdFuncs) σ e
-    if !d₁.isEmpty || !d₂.isEmpty then "n/a"
+    if !niPlain e then "n/a-side-condition"
+    else if !d₁.isEmpty || !d₂.isEmpty then "n/a"
     else if relV v₁ v₂ then (if Val.eqErased v₁ v₂ then "ok-equal" else "ok-marked") else "VIOLATION " ++ valDump v₁ ++ " " ++ valDump v₂
   | _, _, _ => "unsupported-input"
+
+mutual
+def exprHasCall : Expr → Bool
+  | .call _ _ _ => true
+  | .lit _ | .var _ => false
+  | .getAttr e _ | .un _ e | .tjoin e => exprHasCall e
+  | .index a b | .bin _ a b => exprHasCall a || exprHasCall b
+  | .cond a b c => exprHasCall a || exprHasCall b || exprHasCall c
+  | .tuple es | .template es => exprHasCallList es
+  | .object items => exprHasCallItems items
+  | .forTuple _ _ c v o => exprHasCall c || exprHasCall v || (match o with | some x => exprHasCall x | none => false)
+  | .forObject _ _ c k v o _ => exprHasCall c || exprHasCall k || exprHasCall v || (match o with | some x => exprHasCall x | none => false)
+  | .splat _ s e => exprHasCall s || exprHasCall e
+def exprHasCallList : List Expr → Bool
+  | [] => false
+  | e :: es => exprHasCall e || exprHasCallList es
+def exprHasCallItems : List (Expr × Expr) → Bool
+  | [] => false
+  | (k, v) :: rest => exprHasCall k || exprHasCall v || exprHasCallItems rest
+end
 
 /-- `CONC <expr> <concrete env> <abstract env>`: executable instance of the abstraction-soundness statement -/
 def concLine (exprS envCS envAS : Sexp) : String :=
@@ -229,7 +269,10 @@ def concLine (exprS envCS envAS : Sexp) : String :=
   | some e, some ρc, some ρa =>
     let (vc, dc) := eval (strictCx stdFuncs) ρc e
     let (va, da) := eval (strictCx stdFuncs) ρa e
-    if !dc.isEmpty || !da.isEmpty then "n/a"
+    -- the side conditions of `abs_sound_partial` (the full statement is false: Props/C05.lean, cex1..cex9);
+    -- calls are left out because the function-table law `SoundFuncsS` is proved for the empty table only
+    if !(okExpr e && ρc.all (fun p => wfVal p.2) && (fv e).all (fun x => !(x.startsWith "%")) && !(exprHasCall e)) then "n/a-side-condition"
+    else if !dc.isEmpty || !da.isEmpty then "n/a"
     else if conc vc va then (if Val.whollyKnown va then "ok-known" else "ok-abstract") else "VIOLATION " ++ valDump vc ++ " " ++ valDump va
   | _, _, _ => "unsupported-input"
 
